@@ -476,6 +476,11 @@ def cold_jobs():
     ex, ey = enc(*no), enc(*pw2)
     jobs.append({'modules': COLD_MODULES, 'fresh': False, 'jobs': [[x, y, x, z], [y, x, z, y]], 'k': 1})
     jobs.append({'modules': COLD_MODULES, 'fresh': False, 'jobs': [[ex, ey, x], [ey, ex, y]], 'k': 1})
+    # two threads encode (and decode) different sysex messages of different lengths: whatever buffer the encoder builds a
+    # frame in is its caller's own
+    s1, s2, s3 = ('sysex', {'data': (1, 2, 3, 4, 5, 6, 7)}), ('sysex', {'data': (125, 12)}), ('sysex', {'data': ()})
+    jobs.append({'modules': COLD_MODULES, 'fresh': False, 'jobs': [[enc(*s1), enc(*s3), dec('from_bytes', *s1)],
+                                                                    [enc(*s2), enc(*s1), dec('from_bytes', *s2)]], 'k': 1})
     # while another thread saves, measures and loads a file: messages with float and negative times (legal everywhere but in
     # a file) are built, copied, encoded and decoded as ever
     from ..coldstart import file_activity, FILE_MODULES, msg_want
@@ -593,8 +598,55 @@ def derived_sysex_cases(ctx):
     ctx.count('cases', n)
 
 
+def two_thread_stress(ctx, seconds=1.5):
+    """Free-running: two threads encode and decode their own messages (sysex of different lengths, pitchwheel, song position)
+    with a 1 us switch interval; each checks every result against the reference.  Not replayable - the recorded
+    disagreement is the witness.  (A change that guards a shared buffer with a lock of its own cannot be scheduled
+    deterministically from outside: the stand-in scheduler does not know that lock.)"""
+    import sys
+    import threading
+    import time
+    bad = []
+    counts = [0, 0]
+    stop = time.monotonic() + seconds
+
+    def work(tid):
+        k = 0
+        while time.monotonic() < stop and not bad:
+            k += 1
+            n = (k * (tid + 2)) % 9
+            data = tuple(((tid + 1) * 31 + i + k) % 128 for i in range(n if tid == 0 else 9 - n))
+            for t, a in (('sysex', {'data': data}), ('pitchwheel', {'channel': tid, 'pitch': (k * 37 + tid) % 16384 - 8192}),
+                         ('songpos', {'pos': (k * 101 + tid * 7) % 16384})):
+                ref = midi1.encode(t, a)
+                m = Message(t, **a)
+                b = m.bytes()
+                d = Message.from_bytes(ref)
+                if b != ref or d != m or len(m) != len(ref):
+                    bad.append({'thread': tid, 'type': t, 'attrs': {x: list(v) if isinstance(v, tuple) else v for x, v in a.items()},
+                                'bytes': b, 'ref': ref, 'decoded': repr(d)[:80]})
+                    return
+            counts[tid] = k
+    old = sys.getswitchinterval()
+    sys.setswitchinterval(1e-6)
+    try:
+        ths = [threading.Thread(target=work, args=(i,), daemon=True) for i in range(2)]
+        for th in ths:
+            th.start()
+        for th in ths:
+            th.join(seconds + 30)
+    finally:
+        sys.setswitchinterval(old)
+    ctx.check('enc==ref', not bad, 'two-threads-free-running', {'kind': 'two-thread-stress'}, lambda: bad[0])
+    ctx.extra('two_thread_stress_rounds', sum(counts))
+    ctx.nontrivial(None, sum(counts))
+    ctx.count('cases', sum(counts))
+
+
 def run(ctx):
     hash_twins(ctx)
+    if ctx.shard % 4 == 1:
+        two_thread_stress(ctx, 1.5 if ctx.tier == 'quick' else 15.0)
     if ctx.shard == 2 % ctx.nshards:
         derived_sysex_cases(ctx)
     for si, ln in enumerate((999999, 1000000, 1048577)):
@@ -616,7 +668,9 @@ def replay(ctx, case):
     a = dict(case.get('attrs', {}))
     if 'data' in a:
         a['data'] = tuple(a['data'])
-    if k == 'msg':
+    if k == 'two-thread-stress':
+        two_thread_stress(ctx, 5.0)
+    elif k == 'msg':
         check_message(ctx, case['type'], a, case['ti'], case['tf'])
     elif k == 'derived-sysex':
         derived_sysex_cases(ctx)
